@@ -45,7 +45,7 @@ Print Assumptions C03_second_reservation_refused.
 
 (** Repeating the receive step is refused without effect. *)
 Theorem C03_second_receive_refused : forall w slate amount ttl dest crypto_ok t,
-  In t (w_log w) -> t_slate t = Some slate -> t_type t = TReceived ->
+  In t (w_log w) -> t_slate t = Some slate -> (t_type t = TReceived \/ t_type t = TReverted) ->
   t_parent t = (match dest with Some d => d | None => w_active w end) ->
   fst (receive w slate amount ttl dest crypto_ok) = w
   /\ is_ok (snd (receive w slate amount ttl dest crypto_ok)) = false.
@@ -98,9 +98,9 @@ Example C03_two_slates :
   let p := mkParams 1000000000 false 5 1 500 1 true 0 in
   let wA := fst (step w0 (OpInitSend 1 None p false)) in
   let wB := fst (step wA (OpInitSend 2 None p false)) in
-  let wLA := fst (step wB (OpLock 1 0 5)) in
-  snd (step wB (OpLock 1 0 5)) = [0%Z]
-  /\ snd (step wLA (OpLock 2 0 5)) = [1%Z; 2%Z]
-  /\ fst (step wLA (OpLock 2 0 5)) = wLA
+  let wLA := fst (step wB (OpLock 1 0 5 true)) in
+  snd (step wB (OpLock 1 0 5 true)) = [0%Z]
+  /\ snd (step wLA (OpLock 2 0 5 true)) = [1%Z; 2%Z]
+  /\ fst (step wLA (OpLock 2 0 5 true)) = wLA
   /\ option_map r_status (get_out (w_outs wLA) (0, 0) None) = Some Locked.
 Proof. vm_compute. repeat split; reflexivity. Qed.
